@@ -2,7 +2,7 @@
 
 TARGETS = {
     "h_heap": dict(harness=["h_heap.c"], engine=["vf.c"], shims=["shim_ptrheap.c", "shim_timerqueue.c"],
-                   repo=["datastruct/elasticarray.c"]),
+                   repo=["datastruct/elasticarray.c"], wrap=["malloc", "calloc", "realloc"]),
 }
 
 CHECKS = {
@@ -11,29 +11,29 @@ CHECKS = {
         runs=[dict(name="heap", target="h_heap", args=[], quick=[], thorough=[])],
         deadline=dict(quick=60, thorough=600),
         bounds=dict(
-            quick="heap: keys {0,1,2}, <=6 elements, ptrheap_create from every array of <=4 keys, all of add/getmin/deletemin/"
-                  "delete(handle)/increase(handle)/decrease(handle)/increasemin from every state (with and without record-cookie "
-                  "callback); timer queue: times {(0,0),(0,5),(1,0)}, <=6 entries, add/delete/increase/getmin/getptr(t) for every t; "
+            quick="heap: keys {0,1,2}, <=12 elements, ptrheap_create from every array of <=5 keys, all of add/getmin/deletemin/"
+                  "delete(handle)/increase(handle)/decrease(handle)/increasemin/add-with-dead-allocator-then-retry from every state (with and without record-cookie "
+                  "callback); timer queue: times {(0,0),(0,5),(2^31+100,0)}, <=12 entries, add/delete/increase/getmin/getptr(t) for every t; "
                   "every search to its fixed point (operation histories of unbounded length)",
-            thorough="as quick with <=12 elements and create from <=6 keys, plus 4 keys / 4 times {(0,0),(0,5),(1,0),(1,5)} with <=10 elements (create from <=5 keys)"),
+            thorough="as quick with <=14 elements and create from <=6 keys, plus 4 keys / 4 times with <=11 elements (create from <=5 keys)"),
         explanation="states = key sequences in heap-array order reachable from init/create; transitions = single real API calls on a "
                     "restored real heap, each compared with the multiset model; fixed point reached when coverage.exhaustive is true",
         assumptions=["element identities are interchangeable (state = key sequence in array order)",
                      "comparison is a total preorder on small integer keys / on timevals",
-                     "no allocation failure (C14 covers it)"],
+                     "allocation failure only as: one add with a dead allocator followed by a healthy retry, from every state (the general case is C14)"],
     ),
 }
 
 CLAIMS = {
     "C13": dict(
-        text="Every operation history of any length on heaps/timer queues of at most 6 (quick) / 12 (thorough) elements with duplicate "
+        text="Every operation history of any length on heaps/timer queues of at most 12 (quick) / 14 (thorough) elements with duplicate "
              "keys is covered by an explicit-state search to a fixed point over the real ptrheap.c/timerqueue.c: in every reachable "
              "state and after every single real API call getmin is a least element of the model multiset, the heap array holds exactly "
              "the live elements, the position last reported through the record-cookie callback is the slot holding that element (so "
              "delete/increase/decrease by handle hit the intended element), getptr releases a least due entry with exactly its stored "
              "pointer and nothing that is later than the query time.",
         note="Trusted: the multiset model and restore-by-placement in harness/h_heap.c, the read-only shim accessors, clang ASan/UBSan. "
-             "Bounded: <=12 elements (every heap shape and sift path of depth <=3), 3-4 distinct keys; 'thousands of entries' is not "
+             "Bounded: <=14 elements (every heap shape and sift path of depth <=3), 3-4 distinct keys; 'thousands of entries' is not "
              "covered; allocation failure is C14.",
         technique="explicit-state model checking (BFS to a fixed point) of the real heap code against a multiset model", engine="es"),
 }
